@@ -2,6 +2,8 @@ package service_account
 
 import (
 	"fmt"
+	"math"
+	"math/bits"
 
 	types "github.com/New-JAMneration/JAM-Protocol/internal/types"
 	utils "github.com/New-JAMneration/JAM-Protocol/internal/utilities"
@@ -184,14 +186,27 @@ func CalcOctets(account types.ServiceAccount) types.U64 {
 // a_t: calculate threshold(minimum) balance needed for any account in terms of storage footprint
 func CalcThresholdBalance(aI types.U32, aO types.U64, aF types.U64) types.U64 {
 	/*
-		a_t ∈ N_B ≡ B_S + B_I*a_i + B_L*a_o
+		a_t ∈ N_B ≡ max(0, B_S + B_I*a_i + B_L*a_o - a_f)
 	*/
-	storage := types.U64(types.BasicMinBalance) + types.U64(types.U32(types.AdditionalMinBalancePerItem)*aI) + types.U64(types.AdditionalMinBalancePerOctet)*aO
-	if storage < aF {
-		// result < 0
-		return 0
+	// B_S + B_I*a_i fits in 64 bits (a_i < 2^32): the product must not be taken in 32 bits
+	base := uint64(types.BasicMinBalance) + uint64(types.AdditionalMinBalancePerItem)*uint64(aI)
+	// base + B_L*a_o as a 128-bit value (hi, lo)
+	hi, lo := bits.Mul64(uint64(types.AdditionalMinBalancePerOctet), uint64(aO))
+	lo, carry := bits.Add64(lo, base, 0)
+	hi += carry
+	if hi == 0 {
+		if lo < uint64(aF) {
+			// result < 0
+			return 0
+		}
+		return types.U64(lo - uint64(aF))
 	}
-	return storage - aF
+	if hi > 1 || lo >= uint64(aF) {
+		// the exact threshold does not fit in 64 bits: no balance can reach it
+		return types.U64(math.MaxUint64)
+	}
+	// 2^64 + lo - a_f < 2^64
+	return types.U64(lo - uint64(aF))
 }
 
 /*
